@@ -29,3 +29,35 @@ package ir
 //@   ensures [C03.hoist] result ==> hasType(call.Call.Value, "*ssa.Builtin")
 //@   ensures [C03.hoist] result ==> builtinName(call) == "len" || builtinName(call) == "cap" || builtinName(call) == "complex" || builtinName(call) == "real" || builtinName(call) == "imag" || builtinName(call) == "min" || builtinName(call) == "max"
 //@   ensures [C03.hoist] result && (builtinName(call) == "len" || builtinName(call) == "cap") && len(call.Call.Args) > 0 ==> !hasType(underT(typeOfV(call.Call.Args[0])), "*types.Map") && !hasType(underT(typeOfV(call.Call.Args[0])), "*types.Chan")
+
+// ---- C03 / C02: how a reference to a function is rendered into the canonical IR
+// A callee must be rendered by its full identity (package path, receiver, name): two functions that differ only in
+// their package must not render alike.  KNOWN FINDING (open): the rendering uses the bare name.
+// A reference to the function being canonicalised must not leak that function's own name (renaming a recursive
+// function would change its fingerprint).  KNOWN FINDING (open): the name is rendered.
+//@ func (*Canonicalizer).NormalizeOperand
+//@   noframe
+//@   protocol-only C03 C02
+//@   requires [C02.naming] c != nil && c.registerMap != nil
+//@   return-ensures [C03.callee] typed(operand, "*ssa.Function") && !(iface(operand, "*ssa.Function") in c.registerMap) ==> contains(result, purecall("(*golang.org/x/tools/go/ssa.Function).String", operand))
+//@   return-ensures [C02.selfname] typed(operand, "*ssa.Function") && !(iface(operand, "*ssa.Function") in c.registerMap) && context != nil && operand == purecall("invoke:golang.org/x/tools/go/ssa.Instruction.Parent", context) ==> !contains(result, purecall("(*golang.org/x/tools/go/ssa.Function).Name", operand))
+
+// ---- C02: registers are named by position, never by source identifier; literals are abstracted per policy
+//@ func (*Canonicalizer).normalizeValue
+//@   requires [C02.naming] c != nil && c.registerMap != nil
+//@   modifies c
+//@   modifies c.registerMap
+//@   ensures [C02.naming] old(v in c.registerMap) ==> result == old(c.registerMap[v]) && c.regCounter == old(c.regCounter)
+//@   ensures [C02.naming] !old(v in c.registerMap) && len(preferredName) > 0 ==> result == preferredName[0] && c.regCounter == old(c.regCounter)
+//@   ensures [C02.naming] !old(v in c.registerMap) && len(preferredName) == 0 ==> result == "v" + itoa(old(c.regCounter)) && c.regCounter == old(c.regCounter) + 1
+//@   ensures [C02.naming] (v in c.registerMap) && c.registerMap[v] == result
+
+//@ func (*LiteralPolicy).ShouldAbstract
+//@   noframe
+//@   ensures [C02.literals] c != nil && c.Value != nil && purecall("invoke:go/constant.Value.Kind", c.Value) == constant.String ==> result == !p.KeepStringLiterals
+
+// The default policy abstracts strings and keeps only the documented small-integer range.
+//@ func init
+//@   noframe
+//@   requires [C02.policy] !init$guard
+//@   ensures [C02.policy] !DefaultLiteralPolicy.KeepStringLiterals && DefaultLiteralPolicy.SmallIntMin == 0 - 16 && DefaultLiteralPolicy.SmallIntMax == 16 && DefaultLiteralPolicy.AbstractOtherTypes && DefaultLiteralPolicy.AbstractControlFlowComparisons
